@@ -45,6 +45,13 @@ def run (op : String) (j : Json) : Except String Json := do
     pure (Json.mkObj [("pop", optToJson ratToJson (popCorrection sw q)),
       ("corr", optToJson ratToJson (correction robust sw q)),
       ("npq", ratToJson (npQuantile (sw.map Prod.fst) q))])
+  | "conf.loo" =>
+    let l ← listOf ratOfJson (← field j "scores")
+    let q ← ratOfJson (← field j "q")
+    let idx := List.range l.length
+    pure (Json.mkObj [("corr", Json.arr (idx.map (fun i => optToJson ratToJson (looCorrection l q i))).toArray),
+      ("covered", Json.arr (idx.map (fun i => Json.bool (covered l q i))).toArray),
+      ("count", Json.num ((idx.countP (covered l q) : Nat) : Int))])
   | "conf.final" =>
     let l ← ratOfJson (← field j "l")
     let u ← ratOfJson (← field j "u")
